@@ -42,6 +42,7 @@ applies the inverse rewrites to every module and checks that every rule stays si
 from __future__ import annotations
 
 import ast
+import copy
 from typing import Dict, List, Optional, Sequence
 
 FLIP = {ast.Gt: ast.Lt, ast.GtE: ast.LtE}
@@ -647,8 +648,133 @@ def _inline_module_constants(tree: ast.Module, imported: Optional[Dict[str, str]
     Sub().visit(tree)
 
 
-def canonicalise(tree: ast.Module, signatures: Dict[str, List[str]], imported: Optional[Dict[str, str]] = None) -> ast.Module:
+def identifiers(tree: ast.AST) -> set:
+    """every identifier a module mentions (names, attribute names, imported names)"""
+    out = set()
+    for n in ast.walk(tree):
+        if isinstance(n, ast.Name):
+            out.add(n.id)
+        elif isinstance(n, ast.Attribute):
+            out.add(n.attr)
+        elif isinstance(n, (ast.Import, ast.ImportFrom)):
+            for a in n.names:
+                out.add(a.name.split(".")[-1])
+                if a.asname:
+                    out.add(a.asname)
+        elif isinstance(n, ast.Constant) and isinstance(n.value, str) and n.value.isidentifier():
+            out.add(n.value)  # __all__ entries, getattr(...) by name
+    return out
+
+
+def _simple_arg(node: ast.AST) -> bool:
+    """an argument that can be written at every place the parameter is read: a local name, a constant, or an
+    attribute chain on a name"""
+    while isinstance(node, ast.Attribute):
+        node = node.value
+    return isinstance(node, (ast.Name, ast.Constant))
+
+
+def _inline_trivial_helpers(tree: ast.Module, foreign: set) -> None:
+    """a module-level `def h(p1, .., pn): return E` that nothing outside this module mentions, that is only ever
+    *called* (never passed around), with plain arguments, is E with the arguments written in: the extract-function
+    refactoring undone, so that the rules see the expression where it is used"""
+    for _round in range(3):
+        helpers = {}
+        for st in tree.body:
+            if not (isinstance(st, ast.FunctionDef) and not st.decorator_list and st.name not in foreign):
+                continue
+            a = st.args
+            if a.vararg or a.kwarg or a.kwonlyargs or a.defaults or a.posonlyargs:
+                continue
+            body = st.body[1:] if st.body and isinstance(st.body[0], ast.Expr) and isinstance(st.body[0].value, ast.Constant) and isinstance(st.body[0].value.value, str) else st.body
+            if not (len(body) == 1 and isinstance(body[0], ast.Return) and body[0].value is not None):
+                continue
+            expr = body[0].value
+            if any(isinstance(x, (ast.Lambda, ast.ListComp, ast.SetComp, ast.DictComp, ast.GeneratorExp, ast.Yield, ast.YieldFrom, ast.Await, ast.NamedExpr, ast.Starred)) for x in ast.walk(expr)):
+                continue
+            if any(isinstance(x, ast.Name) and x.id == st.name for x in ast.walk(expr)):
+                continue
+            helpers[st.name] = (st, [p.arg for p in a.args], expr)
+        if not helpers:
+            return
+        # every mention must be the callee of a call with plain arguments, inside a function of this module
+        calls = {}
+        callee_ids = set()
+        for n in ast.walk(tree):
+            if isinstance(n, ast.Call) and isinstance(n.func, ast.Name) and n.func.id in helpers:
+                callee_ids.add(id(n.func))
+                calls.setdefault(n.func.id, []).append(n)
+        bad = set()
+        for n in ast.walk(tree):
+            if isinstance(n, ast.Name) and n.id in helpers and id(n) not in callee_ids:
+                bad.add(n.id)
+            elif isinstance(n, (ast.FunctionDef, ast.AsyncFunctionDef, ast.ClassDef)) and n.name in helpers and n is not helpers[n.name][0]:
+                bad.add(n.name)
+            elif isinstance(n, ast.arg) and n.arg in helpers:
+                bad.add(n.arg)
+        in_function = set()
+        for fn in ast.walk(tree):
+            if isinstance(fn, (ast.FunctionDef, ast.AsyncFunctionDef)):
+                for n in ast.walk(fn):
+                    if isinstance(n, ast.Call) and id(n.func) in callee_ids:
+                        in_function.add(id(n))
+        plans = {}
+        for name, (fn, params, expr) in helpers.items():
+            if name in bad or not calls.get(name):
+                continue
+            ok = True
+            for c in calls[name]:
+                given = {}
+                if id(c) not in in_function or len(c.args) > len(params) or any(k.arg is None for k in c.keywords):
+                    ok = False
+                    break
+                for p_, a_ in zip(params, c.args):
+                    given[p_] = a_
+                for k in c.keywords:
+                    if k.arg in given or k.arg not in params:
+                        ok = False
+                    given[k.arg] = k.value
+                if not ok or set(given) != set(params) or not all(_simple_arg(v) for v in given.values()):
+                    ok = False
+                    break
+                plans[id(c)] = (expr, given)
+            if not ok:
+                for c in calls[name]:
+                    plans.pop(id(c), None)
+                bad.add(name)
+        done = {name for name in helpers if name not in bad and calls.get(name)}
+        if not done:
+            return
+
+        class Subst(ast.NodeTransformer):
+            def __init__(self, given):
+                self.given = given
+
+            def visit_Name(self, n):
+                if isinstance(n.ctx, ast.Load) and n.id in self.given:
+                    return copy.deepcopy(self.given[n.id])
+                return n
+
+        class Inline(ast.NodeTransformer):
+            def visit_Call(self, n):
+                n = self.generic_visit(n)
+                plan = plans.get(id(n))
+                if plan is None:
+                    return n
+                expr, given = plan
+                new = Subst(given).visit(copy.deepcopy(expr))
+                for x in ast.walk(new):
+                    ast.copy_location(x, n)
+                return new
+
+        Inline().visit(tree)
+        tree.body[:] = [st for st in tree.body if not (isinstance(st, ast.FunctionDef) and st.name in done and helpers[st.name][0] is st)]
+
+
+def canonicalise(tree: ast.Module, signatures: Dict[str, List[str]], imported: Optional[Dict[str, str]] = None, foreign: Optional[set] = None) -> ast.Module:
     _inline_module_constants(tree, imported)
+    if foreign is not None:
+        _inline_trivial_helpers(tree, foreign)
     canon = Canon(signatures)
     canon.shadowed = {n.id for n in ast.walk(tree) if isinstance(n, ast.Name) and isinstance(n.ctx, ast.Store)} | {a.arg for a in ast.walk(tree) if isinstance(a, ast.arg)}
     tree = canon.visit(tree)
